@@ -20,6 +20,7 @@ struct Context {
 void init_context(Context &gc);
 ops::Plan generate(Context &gc, uint64_t run_seed, uint64_t index);
 uint64_t enum_size(Context &gc);
+ops::Plan warmup_plan(Context &gc);
 
 // C11
 int c11_worker(uint64_t seed, uint64_t from, uint64_t to, uint64_t step, double budget_s, uint64_t samples, const std::string &tier);
